@@ -15,6 +15,7 @@ RULE = (
     "soundness (each value occurs for every surrounding of one alignment class). non-trivial = payload with a multi-byte "
     "or escaped character or length not divisible by 3; distinct by (chain, payload)."
 )
+RULE += (" " + 'Payloads with unescaped wildcards (<= 3 symbols) must be rejected by every Base64 chain. A second detection item built from the payload objects of the first item (same chain) must give the same values and leave the payload unchanged.')
 ASSUMPTIONS = [
     "bytes denoted by a value = UTF-8 encoding of its literal characters (the representation the wide modifier relies on)",
     "Python base64 and codecs are ground truth",
